@@ -31,6 +31,8 @@ pub struct DeletionQuery {
     pub nodes: Vec<NodeDelete>,
     pub node_log: Vec<NodeDeletionEntry>,
     pub updated_nodes: Vec<NodeDelete>,
+    //(room, entity, modification date) of the updated nodes before the update: these days loose a row
+    pub updated_nodes_previous: Vec<(Uid, String, i64)>,
     pub edges: Vec<EdgeDelete>,
     pub edge_log: Vec<EdgeDeletionEntry>,
 }
@@ -46,6 +48,7 @@ impl DeletionQuery {
             nodes: Vec::new(),
             node_log: Vec::new(),
             updated_nodes: Vec::new(),
+            updated_nodes_previous: Vec::new(),
             edges: Vec::new(),
             edge_log: Vec::new(),
         };
@@ -89,6 +92,13 @@ impl DeletionQuery {
                         }
                     }
                     let mut node = *node;
+                    if let Some(room_id) = &node.room_id {
+                        deletion_query.updated_nodes_previous.push((
+                            *room_id,
+                            node._entity.clone(),
+                            node.mdate,
+                        ));
+                    }
                     node.mdate = date;
                     deletion_query.updated_nodes.push(NodeDelete {
                         node,
@@ -128,6 +138,15 @@ impl DeletionQuery {
     pub fn update_daily_logs(&self, daily_log: &mut DailyMutations) {
         for edg in &self.edge_log {
             daily_log.set_need_update(edg.room_id, &edg.src_entity, edg.deletion_date);
+        }
+        //the source node of a deleted reference moves from its previous day to the deletion day
+        for previous in &self.updated_nodes_previous {
+            daily_log.set_need_update(previous.0, &previous.1, previous.2);
+        }
+        for update in &self.updated_nodes {
+            if let Some(room_id) = &update.node.room_id {
+                daily_log.set_need_update(*room_id, &update.node._entity, update.node.mdate);
+            }
         }
         for log in &self.node_log {
             daily_log.set_need_update(log.room_id, &log.entity, log.mdate);
